@@ -5,6 +5,22 @@ import (
 	"github.com/valyala/fasthttp"
 )
 
+// requestCookie is a copy of one cookie of the request.
+type requestCookie struct {
+	key, value string
+}
+
+// isRepeated reports whether one of the given cookies already has that key.
+func isRepeated(cookies []requestCookie, key string) bool {
+	for i := range cookies {
+		if cookies[i].key == key {
+			return true
+		}
+	}
+
+	return false
+}
+
 // New creates a new middleware handler
 func New(config ...Config) fiber.Handler {
 	// Set default config
@@ -17,18 +33,33 @@ func New(config ...Config) fiber.Handler {
 			return c.Next()
 		}
 
-		// Decrypt request cookies
-		c.Request().Header.VisitAllCookie(func(key, value []byte) {
-			keyString := string(key)
-			if !isDisabled(keyString, cfg.Except) {
-				decryptedValue, err := cfg.Decryptor(string(value), cfg.Key)
-				if err != nil {
-					c.Request().Header.SetCookieBytesKV(key, nil)
-				} else {
-					c.Request().Header.SetCookie(string(key), decryptedValue)
-				}
-			}
+		// Decrypt request cookies.
+		// Setting a cookie while visiting the collection always writes to the first cookie
+		// with that name, so a repeated name would leave the raw client value of the later
+		// ones in the request. The cookies are copied out and the collection is rebuilt;
+		// only the first cookie of each name is kept.
+		reqHeader := &c.Request().Header
+		var reqCookies []requestCookie
+		reqHeader.VisitAllCookie(func(key, value []byte) {
+			reqCookies = append(reqCookies, requestCookie{key: string(key), value: string(value)})
 		})
+		if len(reqCookies) > 0 {
+			reqHeader.DelAllCookies()
+		}
+		for i := range reqCookies {
+			cookie := &reqCookies[i]
+			if isRepeated(reqCookies[:i], cookie.key) {
+				continue
+			}
+			if !isDisabled(cookie.key, cfg.Except) {
+				decryptedValue, err := cfg.Decryptor(cookie.value, cfg.Key)
+				if err != nil {
+					decryptedValue = ""
+				}
+				cookie.value = decryptedValue
+			}
+			reqHeader.SetCookie(cookie.key, cookie.value)
+		}
 
 		// Continue stack
 		err := c.Next()
